@@ -62,6 +62,8 @@ def enumerate_cases(tier):
 _M = st.one_of(
     st.sampled_from([1, 2, 7, 10, 50, 200, 950, 1000, 1200]),
     st.sampled_from([0.5, 2.5, 33.3, 950.5, 0.75]),
+    # limits with more than two decimals (the record prints two): a step equal to the limit is printed rounded up or down
+    st.sampled_from([1000 / 6, 187.456, 12.345, 1 / 3, 2 / 3, 0.125, 99.996, 7.0049]),
     st.integers(1, 2000),
     st.floats(0.05, 2000, allow_nan=False).map(lambda x: round(x, 2)),
 )
@@ -74,6 +76,9 @@ def _vol_for(M):
         st.integers(0, 3000),
         st.floats(0, 5000, allow_nan=False).map(lambda x: round(x, 2)),
         k.map(lambda i: round(i * M, 2)),
+        k.map(lambda i: i * M),
+        k.map(lambda i: i * M + 0.004),
+        st.sampled_from([0.001, 0.004, 0.0049, 0.005, 0.006]),
         k.map(lambda i: round(i * M + 0.01, 2)),
         k.map(lambda i: max(0.0, round(i * M - 0.01, 2))),
         st.floats(0.001, 12, allow_nan=False).map(lambda f: round(f * M, 2)),
@@ -279,8 +284,10 @@ def check_case(case) -> Obs:
         total = sum(wanted)
         if abs(sum(steps) - total) > 0.005 * max(1, len(steps)) + 1e-9 * total:
             obs.bad("C06/record-sum", f"pair {key}: records sum to {sum(steps)}, requested {wanted} (M={M})")
+        # a step below 0.005 uL is printed as 0.00: a zero in a record is a defect only if every request and the limit are multiples of 0.01
+        on_grid = all(abs(v * 100 - round(v * 100)) < 1e-7 for v in list(wanted) + [M])
         for s in steps:
-            if not (0 < s <= M + 0.005):
+            if not ((0 < s or (s == 0 and not on_grid)) and s <= M + 0.005):
                 obs.bad("C06/record-step", f"pair {key}: record volume {s} outside (0, {M}] (requested {wanted})")
                 break
         # count: sum over the requests of ceil(v/M) (each request is split on its own)
@@ -301,5 +308,9 @@ def check_case(case) -> Obs:
         obs.cls("exact-multiple")
     if M != int(M):
         obs.cls("nonint-M")
+    if round(M, 2) != M:
+        obs.cls("M-with-more-than-2-decimals")
+    if any(0 < v < 0.005 for v in vols):
+        obs.cls("volume-below-half-a-hundredth")
     obs.cls("dev:" + dev)
     return obs
